@@ -604,19 +604,22 @@ theorem order_arm_SortAgg (keys xc : List OrdKey) (gk : List Nat) (rows : List R
     SortedBy (keyCmp (Gen.claim_SortAgg keys xc)) (opSortAgg gk rows) :=
   List.Pairwise.sublist (runHeads_sublist _ _ rows) h
 
-/-- arm `MergeJoin` (`Inner | RightOuter => x(right)`, `LeftOuter => x(left)`, others nothing): sound
-for the left outer join as it stands; for inner / right outer joins it needs `hgroup`: rows of the
-right input with equal join keys are equivalent under the right input's claimed order (i.e. that
-order says no more than the join key) - see `mergejoin_order_claim_needs_group_eq`. -/
-theorem order_arm_MergeJoin (t : JT) (mg : Row → Row → Row) (lk rk : List Nat) (lks rks xl xr : List OrdKey)
-    (L R : List Row) (hL : SortedBy (keyCmp xl) L) (hR : SortedBy (keyCmp xr) R)
-    (hmgL : ∀ l r, SameKeyCols xl (mg l r) l) (hmgR : ∀ l r, SameKeyCols xr (mg l r) r)
-    (hgroup : ∀ g ∈ runs (sameKeys rk) R, ∀ a ∈ g, ∀ b ∈ g, keyCmp xr a b = .eq) :
-    SortedBy (keyCmp (Gen.claim_MergeJoin t lks rks xl xr)) (opMergeJoin t mg lk rk L R) := by
+/-- arm `MergeJoin` since fix in /repo (`Inner | RightOuter => x(rkeys)`, `LeftOuter => x(lkeys)`,
+others nothing): the output of a merge join whose inputs are sorted by their join keys is sorted
+by the right join keys (inner, right outer: no row's right side is padding) resp. the left join
+keys (left outer) - at full strength, no hypothesis on what else the inputs are ordered by. -/
+theorem order_arm_MergeJoin (t : JT) (mg : Row → Row → Row) (lk rk : List Nat) (xl xr : List OrdKey)
+    (L R : List Row) (hL : SortedBy (keyCmp (ascKeys lk)) L) (hR : SortedBy (keyCmp (ascKeys rk)) R)
+    (hmgL : ∀ l r, SameKeyCols (ascKeys lk) (mg l r) l) (hmgR : ∀ l r, SameKeyCols (ascKeys rk) (mg l r) r) :
+    SortedBy (keyCmp (Gen.claim_MergeJoin t (ascKeys lk) (ascKeys rk) xl xr)) (opMergeJoin t mg lk rk L R) := by
+  have hgroup : ∀ g ∈ runs (sameKeys rk) R, ∀ a ∈ g, ∀ b ∈ g, keyCmp (ascKeys rk) a b = .eq := by
+    intro g hg a ha b hb
+    obtain ⟨hs, ht, hr⟩ := sameKeys_equiv rk
+    exact keyCmp_eq_of_sameKeys rk a b (runs_equiv (sameKeys rk) hs ht hr R g hg a ha b hb)
   have inner_right : ∀ (pad : Bool),
-      SortedBy (keyCmp xr) ((runs (sameKeys rk) R).flatMap (mjBlock pad mg lk rk L)) := by
+      SortedBy (keyCmp (ascKeys rk)) ((runs (sameKeys rk) R).flatMap (mjBlock pad mg lk rk L)) := by
     intro pad
-    have hblock : ∀ g, ∀ y ∈ mjBlock pad mg lk rk L g, ∃ r ∈ g, SameKeyCols xr y r := by
+    have hblock : ∀ g, ∀ y ∈ mjBlock pad mg lk rk L g, ∃ r ∈ g, SameKeyCols (ascKeys rk) y r := by
       intro g y hy
       unfold mjBlock at hy
       split at hy
@@ -626,7 +629,7 @@ theorem order_arm_MergeJoin (t : JT) (mg : Row → Row → Row) (lk rk : List Na
       · obtain ⟨l, _, hy'⟩ := List.mem_flatMap.1 hy
         obtain ⟨r, hr, rfl⟩ := List.mem_map.1 hy'
         exact ⟨r, hr, hmgR l r⟩
-    have hRf : SortedBy (keyCmp xr) (runs (sameKeys rk) R).flatten := by rw [runs_flatten]; exact hR
+    have hRf : SortedBy (keyCmp (ascKeys rk)) (runs (sameKeys rk) R).flatten := by rw [runs_flatten]; exact hR
     unfold SortedBy at hRf ⊢
     rw [List.pairwise_flatten] at hRf
     rw [List.pairwise_flatMap]
@@ -636,16 +639,16 @@ theorem order_arm_MergeJoin (t : JT) (mg : Row → Row → Row) (lk rk : List Na
       intro y hy y' hy'
       obtain ⟨r, hr, hyr⟩ := hblock g y hy
       obtain ⟨r', hr', hyr'⟩ := hblock g y' hy'
-      refine le_of_sameKeyCols xr hyr hyr' ?_
+      refine le_of_sameKeyCols _ hyr hyr' ?_
       unfold leBy; rw [hgroup g hg r hr r' hr']; simp
     · exact hRf.2.imp (fun hgg y hy y' hy' => by
         obtain ⟨r, hr, hyr⟩ := hblock _ y hy
         obtain ⟨r', hr', hyr'⟩ := hblock _ y' hy'
-        exact le_of_sameKeyCols xr hyr hyr' (hgg r hr r' hr'))
+        exact le_of_sameKeyCols _ hyr hyr' (hgg r hr r' hr'))
   cases t with
   | leftOuter =>
     simp only [Gen.claim_MergeJoin, opMergeJoin]
-    apply sorted_flatMap_blocks xl L _ hL
+    apply sorted_flatMap_blocks _ L _ hL
     intro l _ y hy
     split at hy
     · simp at hy; subst hy; exact fun _ _ => rfl
@@ -665,17 +668,48 @@ example : opMergeJoin .leftOuter (mergeRow 4 [2, 3]) [0] [2]
     [[.i32 1, .i32 10, .null, .null], [.i32 4, .i32 40, .null, .null]] [[.null, .null, .i32 1, .i32 7]]
     = [[.i32 1, .i32 10, .i32 1, .i32 7], [.i32 4, .i32 40, .null, .null]] := by decide
 
-/-- The `hgroup` hypothesis is necessary: an inner merge join whose right input is ordered by
-(key, w DESC) and whose left input has a duplicate key emits w = 101, 100, 101, 100 - not in the
-order the arm claims (genuine defect `order:mergejoin-input-order-longer-than-join-key`,
-corpus/C12/mergejoin_longer_order.case). -/
+/-- Regression of `order:mergejoin-input-order-longer-than-join-key` (the arm used to claim the right
+input's WHOLE order): an inner merge join whose right input is ordered by (key, w DESC) and whose
+left input has a duplicate key emits w = 101, 100, 101, 100 - ordered by the join key, which is all
+the arm claims now, NOT by (key, w DESC). corpus/C12/mergejoin_longer_order.case. -/
 theorem mergejoin_order_claim_needs_group_eq :
     let L : List Row := [[.i32 1, .i32 10, .null, .null], [.i32 1, .i32 11, .null, .null]]
     let R : List Row := [[.null, .null, .i32 1, .i32 101], [.null, .null, .i32 1, .i32 100]]
     let xr : List OrdKey := [⟨2, false⟩, ⟨3, true⟩]
+    let out := opMergeJoin .inner (mergeRow 4 [2, 3]) [0] [2] L R
     SortedBy (keyCmp xr) R ∧ SortedBy (keyCmp [⟨0, false⟩]) L ∧
-      ¬ SortedBy (keyCmp (Gen.claim_MergeJoin .inner [] [] [⟨0, false⟩] xr)) (opMergeJoin .inner (mergeRow 4 [2, 3]) [0] [2] L R) := by
+      ¬ SortedBy (keyCmp xr) out ∧ SortedBy (keyCmp (Gen.claim_MergeJoin .inner (ascKeys [0]) (ascKeys [2]) [⟨0, false⟩] xr)) out := by
   decide
+
+/-- The class-level order property: `ExprAnalysis::merge` (regenerated: `Gen.mergeOrder`) combines
+the claims of two members of an e-class into a claim that holds for WHICHEVER member is extracted:
+it is a prefix of both. (With `merge_max`, the former code, this fails: finding
+`order:eclass-order-max`, fixed in /repo 85f5275.) -/
+theorem order_merge_sound (a b : List OrdKey) (rows : List Row) :
+    (SortedBy (keyCmp a) rows → SortedBy (keyCmp (Gen.mergeOrder a b)) rows) ∧
+    (SortedBy (keyCmp b) rows → SortedBy (keyCmp (Gen.mergeOrder a b)) rows) := by
+  have hpre : ∀ (a b : List OrdKey), (∃ r, a = Gen.mergeOrder a b ++ r) ∧ (∃ r, b = Gen.mergeOrder a b ++ r) := by
+    intro a
+    induction a with
+    | nil => intro b; exact ⟨⟨[], by simp [Gen.mergeOrder]⟩, ⟨b, by simp [Gen.mergeOrder]⟩⟩
+    | cons x xs ih =>
+      intro b
+      cases b with
+      | nil => exact ⟨⟨x :: xs, by simp [Gen.mergeOrder]⟩, ⟨[], by simp [Gen.mergeOrder]⟩⟩
+      | cons y ys =>
+        by_cases hxy : x = y
+        · subst hxy
+          obtain ⟨⟨r1, h1⟩, ⟨r2, h2⟩⟩ := ih ys
+          refine ⟨⟨r1, ?_⟩, ⟨r2, ?_⟩⟩
+          · simp only [Gen.mergeOrder, if_true, List.cons_append]; rw [← h1]
+          · simp only [Gen.mergeOrder, if_true, List.cons_append]; rw [← h2]
+        · exact ⟨⟨x :: xs, by simp [Gen.mergeOrder, hxy]⟩, ⟨y :: ys, by simp [Gen.mergeOrder, hxy]⟩⟩
+  obtain ⟨⟨r1, h1⟩, ⟨r2, h2⟩⟩ := hpre a b
+  refine ⟨fun h => ?_, fun h => ?_⟩
+  · rw [h1] at h; exact sortedBy_prefix _ r1 rows h
+  · rw [h2] at h; exact sortedBy_prefix _ r2 rows h
+
+example : Gen.mergeOrder [⟨1, false⟩, ⟨2, true⟩] [⟨1, false⟩] = [⟨1, false⟩] := by decide
 
 /-- The hash join (no arm: the planner claims no order for it) does emit its rows in the order of
 its RIGHT input for inner and right outer joins ... -/
